@@ -96,20 +96,23 @@ CHECKS["C04"] = ("other",
 
 # additions of later rounds (appended to the notes above)
 EXTRA = {
-    "C05": "Lemma store holds a plain value and a value implementing Cloner that blocks change in place; lemmas AndCode, NotCode, StateCode (block boolean decides, nothing consumed, error recorded once, store changes gone after predicate blocks and kept after state blocks).",
+    "C05": "Lemma store holds a plain value and a value implementing Cloner that blocks change in place; lemmas AndCode, NotCode, StateCode (block boolean decides, nothing consumed, error recorded once, store changes gone after predicate blocks and kept after state blocks). Left-recursive parsers (state blocks in the base - also an empty one -, before and after the operand, in a helper rule) under lr and lropt; known finding F21 (a leader's memo entry answers a second evaluation of the rule without running its state blocks).",
     "C02": "Lemmas AndCode, NotCode, StateCode added.",
-    "C06": "One-step lemma Memo: two evaluations of an expression at one position agree (value, outcome, end) and Memoize(true) does not evaluate twice.",
-    "C07": "(a) asserts only about the grammar rebuilt from real ast nodes (PrepareGrammar and BuildParser); the run over lazy slots only decides which slots matter and may panic on or ignore the harness type without raising an alarm.",
-    "C08": "Random LR grammars include recursion through helper rules whose names sort before or after the leader (direct and indirect alternatives mixed).",
-    "C09": "Random class merges include rules that are choices over an earlier leaf rule, referenced next to that leaf.",
-    "C11": "Left-recursive grammars with failing blocks (three symbolic invocations per block); AddErr lemma also from a list in which the same error was recorded and rolled back.",
-    "C13": "Harness_C13main: the real main() (package flag interpreted; input, output and imports.Process stubbed; exit mocked) on 6 grammars x 8 concrete (-optimize-grammar, -support-left-recursion, -x) triples with the other flags, the alternate entry points and one appended byte symbolic; oracle = stage results of the replayed pipeline; natively replayed on real files with the real goimports. The static-code template expansion is executed (native regexp/text/template intrinsics) in the main() harness. Known finding F19 (-no-recover exposes a panic of the front end's own action on an unterminated code block).",
+    "C06": "One-step lemma Memo: two evaluations of an expression at one position agree (value, outcome, end) and Memoize(true) does not evaluate twice. The Statistics collector starts at 0 or 5.",
+    "C07": "(a) asserts only about the grammar rebuilt from real ast nodes (PrepareGrammar and BuildParser); the run over lazy slots only decides which slots matter and may panic on or ignore the harness type without raising an alarm. Menu of 47 (handlers whose recovery expression is a rule, a reference to the throwing rule); the reference follows throw -> handler edges across rules; known finding F20 (cycle through a throw recovered by a handler of another rule not detected). c_rrfffd under the re-entry monitor.",
+    "C08": "Random LR grammars include recursion through helper rules whose names sort before or after the leader (direct and indirect alternatives mixed). State blocks in left-recursive rules (state_lr_catalogue).",
+    "C09": "Random class merges include rules that are choices over an earlier leaf rule, referenced next to that leaf. og_notany* (negative predicate over a one-character matcher followed by the any matcher), og_diamond, og_lblclash2 (known-if-not-type-checking:F13).",
+    "C11": "Left-recursive grammars with failing blocks (three symbolic invocations per block); AddErr lemma also from a list in which the same error was recorded and rolled back. AddErr lemma draws the inner error among a plain error, an errList value and a wrapped errList (errors.As is an engine intrinsic).",
+    "C13": "Harness_C13main: the real main() (package flag interpreted; input, output and imports.Process stubbed; exit mocked) on 6 grammars x 8 concrete (-optimize-grammar, -support-left-recursion, -x) triples with the other flags, the alternate entry points and one appended byte symbolic; oracle = stage results of the replayed pipeline; natively replayed on real files with the real goimports. The static-code template expansion is executed (native regexp/text/template intrinsics) in the main() harness. Known finding F19 (-no-recover exposes a panic of the front end's own action on an unterminated code block). The grammar arrives on a virtual standard input (input(), bufio, io.ReadAll interpreted); Harness_C13maintext: whole text of <= 2 / 3 symbolic bytes through the real main().",
     "C14": "Lemma RecoveryNested (a throw inside the running recovery expression is handled by the handler that is still in force); grammars tr_resume, tr_resume2.",
-    "C15": "Seeded grammars with 2-4 classes each that share Unicode class names, characters and ranges and differ in ^ and i (24 / 300).",
+    "C15": "Seeded grammars with 2-4 classes each that share Unicode class names, characters and ranges and differ in ^ and i (24 / 300). Kernel Harness_C15kernel: every Unicode class name the front end accepts (200) x i, BasicLatinLookup against package unicode on a symbolic rune below 128.",
     "C16": "Second harness: the Stats collector handed to Statistics already counts 0..40 expressions (symbolic), budget 1..16, option order symbolic.",
-    "C18": "Option values are built once and handed to every call; fourth family: the three calls through ParseReader, the first value compared with a deep copy taken when it was returned.",
-    "C19": "The static-code template expansion is executed in the engine (native regexp/text/template intrinsics), so the compared output is the complete file before goimports. Harness_C19seq: X built after Y in one process equals X built in a fresh process (symFreshProcess; two native processes confirm).",
-    "C20": "CRLF variants of the round-trip texts; free holes also inside a code block and inside a raw string (alphabet with CR and back quote).",
+    "C18": "Option values are built once and handed to every call; fourth family: the three calls through ParseReader, the first value compared with a deep copy taken when it was returned. Fifth family C18opts: the middle call sets every runtime option to its non-default value, the third call (default options) must equal the first. c_longclass (a class listing 11 characters) under the ownership monitor.",
+    "C19": "The static-code template expansion is executed in the engine (native regexp/text/template intrinsics), so the compared output is the complete file before goimports. Harness_C19seq: X built after Y in one process equals X built in a fresh process (symFreshProcess; two native processes confirm). opt_diamond (diamond of rule references) among the grammars.",
+    "C01": "Lit lemma over literals with the two-byte rune last, first and in both places; Class lemma with U+FFFD as a member; c_icase3, c_longclass, c_rrfffd among the composites.",
+    "C03": "Harness_C03litbody: escape-free literal bodies of <= 2 / 3 symbolic bytes in all three quotings (raw literals discard carriage returns).",
+    "C10": "c_icase3 (one case-insensitive literal in three spellings); differently spelled i-literals among the random terminals.",
+    "C20": "CRLF variants of the round-trip texts; free holes also inside a code block and inside a raw string (alphabet with CR and back quote). Free holes directly behind a literal and behind a class.",
 }
 
 NOT_BUILT = {
